@@ -114,6 +114,8 @@ func discharge(o *Oblig, dir string, quickSecs, fullSecs int) {
 			o.Status = "failed"
 		case "sat":
 			o.Status = "proved"
+		case "error":
+			o.Status = "error"
 		default:
 			o.Status = "not-refuted"
 		}
@@ -156,6 +158,15 @@ func discharge(o *Oblig, dir string, quickSecs, fullSecs int) {
 	}
 	o.Secs += maxEl
 	o.Status = "unknown"
+	nerr := 0
+	for _, s := range outs {
+		if strings.Contains(s, ": error") {
+			nerr++
+		}
+	}
+	if nerr == len(solvers) {
+		o.Status = "error"
+	}
 	o.Output = strings.Join(outs, "\n")
 }
 
